@@ -35,7 +35,10 @@ func judgeC06(sc *BatchSc, x *batchExec, br batchRun, fail string) Verdict {
 	if x.postCalls != 1 {
 		return bad("C06:post-count", "post called %d times in one run (events %v)", x.postCalls, bevStrings(br.Events))
 	}
-	if x.postInflight[0] != 0 {
+	// In stop mode and under cancellation an implementation may call post at once and abandon
+	// in-flight executions (their slots must then be errors, see below); "settled" = the slot is final.
+	strictSettle := !sc.stop() && !cancelled
+	if strictSettle && x.postInflight[0] != 0 {
 		return bad("C06:post-before-settled", "post was entered while %d item executions were still in flight", x.postInflight[0])
 	}
 	items, results := x.postItems[0], x.postRes[0]
@@ -70,10 +73,20 @@ func judgeC06(sc *BatchSc, x *batchExec, br batchRun, fail string) Verdict {
 			}
 			return bad("C06:item-not-settled", "item %d was never processed before post (continue mode)", i)
 		}
+		unsettled := false
 		for _, e := range per[i] {
 			if !e.Ended || e.End > postStart {
+				unsettled = true
+			}
+		}
+		if unsettled {
+			if strictSettle {
 				return bad("C06:post-before-settled", "item %d still executing when post ran", i)
 			}
+			if !results[i].IsError() {
+				return bad("C06:unsettled-slot-not-error", "item %d was still executing when post ran (stop mode / cancellation), yet result %d is presented as %s", i, i, describeResult(results[i]))
+			}
+			continue
 		}
 		if (cancelled || sc.stop()) && results[i].IsError() {
 			// cancellation may cut an item's retries; in stop mode C09 allows an error in any slot
@@ -84,7 +97,13 @@ func judgeC06(sc *BatchSc, x *batchExec, br batchRun, fail string) Verdict {
 			return bad("C06:slot", "result %d does not belong to item %d: %s", i, i, m)
 		}
 	}
-	if x.postStarted[0] != n && !sc.stop() && !cancelled {
+	passedThrough := 0
+	for i := 0; i < n; i++ {
+		if len(per[i]) == 0 && sc.item(i).PreErr {
+			passedThrough++
+		}
+	}
+	if x.postStarted[0]+passedThrough < n && strictSettle {
 		return bad("C06:post-before-all-started", "post entered after only %d of %d items had been started", x.postStarted[0], n)
 	}
 	// (Run's return value is C04's business, not C06's.)
